@@ -163,7 +163,7 @@ check("C14", "model_checking",
 
 check("C16", "model_checking",
       "spec/Gate.tla is the configuration machine: the VM's cfg, the parser's copy pcfg, macro lines writing the copy only, st values parsed with "
-      "saved/restored flags, End discarding the copy; each item of an input becomes dice / identifier / statement / operator / stop / error according "
+      "saved/restored flags, End discarding the copy, and the two passes of the parser (look-ahead guard and real parse: GuardAgrees); each item of an input becomes dice / identifier / statement / operator / stop / error according "
       "to the flags in force.  TLC checks FamilyGated, StmtsGated, NDiceGated, BitGated, CopyDiffers, MacroScoped and CfgStable on all bounded behaviours "
       "and writes every behaviour (exhaustive: 128 flag sets x item sequences; simulated: histories of 3 inputs) as a replay plan; the harness runs each "
       "input on the real VM and TLC (Trace_Gate) compares what every item became with the listing, and checks for every run - also the complete spellings "
@@ -189,6 +189,7 @@ check("C07", "model_checking",
       "(unbounded loops and recursion, huge counts, exploding pools in every mode, doubling strings/containers, sources around every built-in capacity, small parse budgets) "
       "run in child processes with time/memory ceilings under budgets 300 and 30000; hooks H1/H2 meter every dispatched instruction (with the counter at that moment) and "
       "every die; TLC (Trace_Budget) checks for every run: termination, no resource exhaustion, no crash, work <= 1.5*limit+200, work <= 2*ops+200 at every dispatch, "
+      "work <= ops at every dispatch (every instruction and die charged before it happens), the counter the host reads after the run accounts for the work (also when a nested evaluation ends in an error), "
       "counter monotone, over-limit => error, and for capacity cases value = the full program's value or an error.",
       "Trusted: the meters, the ceilings (45 s, 1.5 GB), the slack constants, the generator's expected values, TLC. Families are designed, not exhaustive.",
       "TLA+ metered machine checked by TLC + TLC trace validation of metered real runs of adversarial programs", "DESIGN.md section 4 C07")
@@ -196,7 +197,7 @@ check("C07", "model_checking",
 check("C01", "model_checking",
       "spec/Total.tla defines the operand space - every operator, dice form, postfix form, method, built-in and st form as a template with holes, 22 value classes split where a "
       "crash can depend on the split - and the totality contract (every call of the observation sequence returns value or error; panic, hang and process death are not outcomes). "
-      "TLC writes the complete product (195k cases); the harness places each case in 14 nesting contexts, pre-loads the representatives and performs Parse, RunAfterParsed, "
+      "TLC writes the complete product (228k cases), a second product with cyclic values in every hole (20k), and a nesting product (31 self-containing or repeatable constructs x depths 25..120000 x closed/open); the harness places each case in 14 nesting contexts, pre-loads the representatives and performs Parse, RunAfterParsed, "
       "GetDetailText, Run again, GetDetailText twice, GetAsmText, Ret.ToString/ToRepr/ToJSON, Matched/RestInput, RunExpr under recover on VMs that serve several inputs, under "
       "configurations drawn from all flag/mode/default-sides/budget combinations, in worker processes with a hang watchdog and restart after process death; byte-level inputs "
       "(random bytes, token soups, truncations, splices) go through the same executor; TLC (Trace_Total) checks every recorded sequence against the contract.",
@@ -205,10 +206,10 @@ check("C01", "model_checking",
 
 check("C11", "model_checking",
       "spec/Shared.tla models N VMs and the package-level state they could share (error language, global generator) at the granularity of the gates: TLC checks Isolation, "
-      "NoRace and NoLostDraw for the repaired design and requires them to fail for the pinned one; every complete 2-VM schedule (all language and seeded/unseeded assignments; "
+      "NoRace and NoLostDraw for the repaired design and requires them to fail for the pinned one and for a design with a process-wide cache of lazily compiled code; every complete 2-VM schedule (all language and seeded/unseeded assignments; "
       "thorough: a sample of the 3-VM schedules) is executed on real goroutines parked at the gates (hook H5) and released in schedule order, and TLC (Trace_Shared) compares each "
       "VM's value / error text / process text with its isolated run.  Free-running goroutines with private VMs run the same programs in a -race build of the harness: every race "
-      "report is a violation, and every evaluation is compared with the same evaluation alone.",
+      "report is a violation, and every evaluation is compared with the same evaluation alone in a process of its own (the concurrent runs come first, in a cold process).",
       "Trusted: the Go race detector, the gate scheduler of the harness, TLC. Interleavings finer than the gates are only exercised by the free-running part; unknown shared state is not excluded.",
       "TLA+ interleaving model checked by TLC + replay of all TLC schedules on gated goroutines + race-detector runs validated by TLC", "DESIGN.md section 4 C11")
 
